@@ -21,6 +21,13 @@ ASSUMPTIONS = ['integers are sampled; MiniDB stands in for ZODB for the '
                'two-connection schedules']
 
 
+def _safe_str(e):
+    try:
+        return str(e)[:200]
+    except Exception as e2:
+        return '<str() of the exception raised %s>' % type(e2).__name__
+
+
 def must_see(tier):
     return {'resolve-triples': 5000, 'equal-deltas': 100, 'zero-delta': 100,
             'db-schedules': 100, 'cell-histories': 100,
@@ -109,7 +116,7 @@ def run_shard(spec, rec):
             r2 = L._p_resolveConflict(old, old + b, old + a)
         except Exception as e:
             rec.violation('resolution-raised', detail='%s: %s' % (
-                type(e).__name__, str(e)[:200]), old=bi(old), a=bi(a),
+                type(e).__name__, _safe_str(e)), old=bi(old), a=bi(a),
                 b=bi(b))
             break
         if r1 != want or r2 != want or type(r1) is not int:
